@@ -162,7 +162,26 @@ RULE = (
     'rule sets x nest x trim (at construction; thorough: both at '
     'construction or both per call), sorted listing: two populations from '
     'the tree, then the tree is changed on disk and the same map is '
-    'populated a THIRD time; the oracle runs after each population.  The '
+    'populated a THIRD time; the oracle runs after each population.  '
+    'Parts "filter-forms" / "filter-forms-pairs": the way the caller hands '
+    'the extension filter to add_rule(file_exts=...) - in every other part '
+    'a fresh list that nobody touches again - becomes an input dimension '
+    '(fourth member of a rule): {tuple, set, frozenset, dict keys view, '
+    'generator (one-shot, no len()), list / set that the caller clears '
+    'right after add_rule, list / set whose content the caller replaces by '
+    'the foreign extension .zz right after add_rule, ONE scratch list '
+    'cleared and refilled before each add_rule}.  "filter-forms": EVERY '
+    'tree with <= 2 (thorough: 3) entries x {the 12 single rules over r / '
+    'r/d (3 filters, without / with extras) x the 9 forms of a single rule '
+    '(clearing an empty filter left out) = 100 rule sets, the 36 core pairs '
+    'over r / r/d with BOTH filters passing through the one recycled list} '
+    'x nest x trim (at construction; thorough: both at construction or both '
+    'per call); "filter-forms-pairs" (thorough): EVERY tree with <= 2 '
+    'entries x the 36 core pairs over r / r/d x {both rules in the same of '
+    'the 9 forms, one rule in any of the 9 forms and the other a plain '
+    'list} = 884 rule sets x nest x trim (at construction); sorted listing, '
+    'plain root, two populations, same model and same oracle as everywhere '
+    '(the filter of a rule is what add_rule was given).  The '
     'recording factory returns handles that are FALSY (__bool__) for every '
     'file except those named b.x, in every part.  '
     'A case is distinct by its input '
@@ -173,7 +192,10 @@ RULE = (
     'handle, root spelling, file <-> directory change before a third '
     'population, FIFO / dangling link ignored in the rule directory / a '
     'sub-directory / next to a regular file / alone, rule path that is a '
-    'FIFO, ...).')
+    'FIFO, filter given as tuple / set / frozenset / keys view / '
+    'generator, caller\'s filter object cleared / overwritten / recycled '
+    'after add_rule in a case where looking at it again would change the '
+    'result, ...).')
 
 ASSUMPTIONS = [
     'out of alphabet: dot-files (glob skips them by convention; the '
@@ -212,6 +234,24 @@ ASSUMPTIONS = [
     'tree change) or a FIFO (q); os.path.exists is true for both.  A rule '
     'path that is a dangling symbolic link (exists() false, lexists() true) '
     'is not enumerated: the statement does not say whether it is "missing"',
+    'extension filter objects (parts "filter-forms*"): add_rule documents '
+    'file_exts as Iterable[str], so every iterable of the same extensions '
+    'is the same filter - also one that has no len() and can be iterated '
+    'only once (a generator), in the first AND in the second population.  '
+    '"The rule\'s extension filter" of the statement is read as the '
+    'extensions add_rule was given: what the caller does to ITS object '
+    'afterwards (clear it, overwrite it, refill it for the next add_rule - '
+    'all before the first population) must not change which files the rule '
+    'accepts.  The oracle is the unchanged one; nothing is demanded about '
+    'how or when the implementation copies, nor about the type of the '
+    'stored filter.  The shortcuts filter_alias_would_show_<form> count the '
+    'cases in which an implementation that looked at the caller\'s object '
+    'again at population time would yield a different set of accepted '
+    'files.  Not enumerated: mutation of the object between two populations '
+    '(an implementation that still sees the object then sees it before the '
+    'first population too), a str as filter (an iterable of characters), '
+    'duplicate extensions, iterables that raise, combination with listing '
+    'orders / root spellings / special entries / a third population',
     'nest_on_conflict / trim_extensions have the same value in all '
     'populations of a case; so has the root (spelling and way of giving it)',
     'root spellings: absolute paths only (plain, with one trailing '
